@@ -100,6 +100,8 @@ def _fixed_arg(cfg):
 
 
 _ABSENT = ("<absent-in-reference>",)
+# (without the falsy exception object: concurrent.futures.Future.result() itself swallows it, see C13)
+_RAISE_KINDS = tuple(k for k in EXC_KINDS if k != "Problems")
 
 
 def simplify(case):
@@ -755,7 +757,7 @@ def _run_case(case, exec_seed=None, exec_tape=None):
     for c in base.calls:
         nth = per_fn.get(c.fn, 0)
         per_fn[c.fn] = nth + 1
-        plans.append([{"kind": "raise", "fn": c.fn, "nth": nth, "exc": EXC_KINDS[(nth + len(c.fn)) % len(EXC_KINDS)]}])
+        plans.append([{"kind": "raise", "fn": c.fn, "nth": nth, "exc": _RAISE_KINDS[(nth + len(c.fn)) % len(_RAISE_KINDS)]}])
         ex = cfg["executor"]
         if ex["kind"] in ("single", "default-pool") and ex["ex"]["mode"] == "process" and (nth + len(plans)) % 2 == 0:
             # the pool worker that runs this call dies (os._exit, OOM kill): the pool breaks, the program lives on
